@@ -1,7 +1,7 @@
 """Encoder-vs-reference engine shared by the soundness checks (C01-C04, C06, C08-C10)."""
 import copy
 
-from . import adapter, build as B, probe, ref
+from . import adapter, build as B, known, probe, ref
 from .env import HarnessError
 from .runner import digest
 
@@ -203,6 +203,32 @@ def classes_of(spec):
     return sorted(cl)
 
 
+def delivered(sess, spec, sched, model, ctx):
+    """buffer profiles and indicator values as delivered by build_solution(model); falls back to the
+    raw model values when there is nothing to deliver or no model."""
+    rep_ind = sched.get("indicators")
+    rep_buf = None
+    if model is None or not (spec.get("buffers") or spec.get("indicators")):
+        if sched.get("buffers"):
+            rep_buf = None
+        return rep_buf, rep_ind
+    try:
+        sol = sess.h.solver.build_solution(model)
+    except Exception as exc:  # the delivery path itself is C11's subject
+        if ctx is not None:
+            ctx.event("build_solution_raised:" + type(exc).__name__)
+        return None, rep_ind
+    rep_buf = {bn: {"levels": list(b.level), "times": list(b.level_change_times)} for bn, b in sol.buffers.items()}
+    names = {}
+    for iid, obj in sess.h.indicators.items():
+        names.setdefault(obj.name, []).append(iid)
+    rep_ind = {}
+    for nm, ids in names.items():
+        if len(ids) == 1 and nm in sol.indicators:
+            rep_ind[ids[0]] = sol.indicators[nm]
+    return rep_buf, rep_ind
+
+
 def soundness_case(ctx, case, families, check_name, enum_cap_small=120, extra_nt=None, sig_extra=None):
     """Generic soundness property: every admitted schedule is weak-valid for `families`."""
     spec, pins, seed = case["spec"], case["pins"], case["seed"]
@@ -216,11 +242,8 @@ def soundness_case(ctx, case, families, check_name, enum_cap_small=120, extra_nt
     for origin, sched, model in ex.schedules(pins, enum_cap=enum_cap):
         n += 1
         ctx.evaluation()
-        rep_buf = {
-            bn: dict(zip(("levels", "times"), ref.dedup_reported(b["levels"], b["times"])))
-            for bn, b in (sched.get("buffers") or {}).items()
-        }
-        vd = ref.judge(spec, sched, reported_buffers=rep_buf, reported_indicators=sched.get("indicators"))
+        rep_buf, rep_ind = delivered(ex.sess, spec, sched, model, ctx)
+        vd = ref.judge(spec, sched, reported_buffers=rep_buf, reported_indicators=rep_ind)
         ctx.event("verdict_" + vd.status())
         if ctx.collect:
             for f, r, e, _, d in vd.bad():
@@ -235,7 +258,7 @@ def soundness_case(ctx, case, families, check_name, enum_cap_small=120, extra_nt
                 "seed": seed,
                 "probe": {"kind": "admitted_schedule", "origin": origin, "schedule": to_candidate(spec, sched)},
                 "observed": summarize_bad(bad),
-                "signature": {"rule": f"{f0[0]}:{f0[1]}", "classes": classes_of(spec), **(sig_extra(spec, sched, f0) if sig_extra else {})},
+                "signature": {"rule": f"{f0[0]}:{f0[1]}", "classes": classes_of(spec), **known.features(spec, sched), **(sig_extra(spec, sched, f0) if sig_extra else {})},
             }
             ctx.violation(rec)
             continue
@@ -257,11 +280,8 @@ def replay_soundness(record, families):
     st, sched, m = sess.admitted(cand, pin_horizon=False)
     if st != "sat":
         return False, f"recorded schedule is no longer admitted ({st})"
-    rep_buf = {
-        bn: dict(zip(("levels", "times"), ref.dedup_reported(b["levels"], b["times"])))
-        for bn, b in (sched.get("buffers") or {}).items()
-    }
-    vd = ref.judge(spec, sched, reported_buffers=rep_buf, reported_indicators=sched.get("indicators"))
+    rep_buf, rep_ind = delivered(sess, spec, sched, m, None)
+    vd = ref.judge(spec, sched, reported_buffers=rep_buf, reported_indicators=rep_ind)
     bad = vd.bad(families)
     if bad:
         return True, summarize_bad(bad)
